@@ -12,9 +12,11 @@ NODE = {"k": "u"|"i"|"f"|"b", "n": bits} | {"k": "v"} | {"k": "a"|"l", "el": NOD
 Mapping of Python outcomes to protocol answers (documented here as CODEC_PROTOCOL.md asks):
 * ``ValueError`` raised by a generated constructor/setter because a variable-length array is longer than its
   capacity                                                       -> ``err:bad-array-length`` (rejected, no bytes)
-* a number outside the DSDL range of its field (the setters refuse these regardless of cast mode; array elements are
-  checked here against the same range because NumPy would wrap/overflow silently), an option index >= option count
-  (not expressible with the generated constructor), ``serbuf`` (the Python API owns the buffer)      -> ``n/a``
+* a SCALAR outside the DSDL range of its field is handed to the generated constructor / setter: if that refuses it
+  (ValueError; the shipped setters do, regardless of cast mode) -> ``n/a``; if it ACCEPTS it, the request goes on and the bytes
+  must be the saturated / truncated ones of the specification.  Array elements outside their NumPy storage dtype (NumPy would
+  wrap/overflow silently), an option index >= option count (not expressible with the generated constructor), ``serbuf`` (the
+  Python API owns the buffer)      -> ``n/a``
 * ``deserialize`` returning ``None``                              -> ``err:invalid`` (the API does not tell which of the
   three representation errors it was; the engine accepts it for any of them)
 * consumed size is not reported by the Python API                 -> ``?``
@@ -103,7 +105,8 @@ STATS = collections.Counter()
 PRIMARY_ARRAY = "exact" if NDARRAY else "list"
 ARRAY_SPELLINGS = ["list", "tuple", "exact", "swapped", "strided", "negstride", "readonly", "wider", "narrower", "unaligned", "2d",
                    "object", "bytes", "bytearray", "memoryview"]
-_SPELL = {"array": PRIMARY_ARRAY, "applied": 0}       # the spelling build() uses for primitive arrays right now
+_SPELL = {"array": PRIMARY_ARRAY, "applied": 0,       # the spelling build() uses for primitive arrays right now
+          "pass_oor": False, "oor": 0}                  # pass_oor: scalars outside the DSDL range go to the generated setter (it decides); oor: how many did
 
 
 class _Inapplicable(Exception):
@@ -229,20 +232,26 @@ def build(node, toks, pos, in_array=False):
     if k == "u":
         v = int(toks[pos])
         if not 0 <= v < (1 << (_storage_bits(node["n"]) if in_array else node["n"])):
-            raise NotApplicable()
+            if in_array or not _SPELL["pass_oor"]:
+                raise NotApplicable()
+            _SPELL["oor"] += 1           # a scalar: the generated setter decides; if it accepts, the value must serialize as the cast mode says
         return v, pos + 1
     if k == "i":
         v = int(toks[pos])
         w = _storage_bits(node["n"]) if in_array else node["n"]
         if not -(1 << (w - 1)) <= v < (1 << (w - 1)):
-            raise NotApplicable()
+            if in_array or not _SPELL["pass_oor"]:
+                raise NotApplicable()
+            _SPELL["oor"] += 1
         return v, pos + 1
     if k == "b":
         return bool(int(toks[pos])), pos + 1
     if k == "f":
         x = struct.unpack("<d", struct.pack("<Q", int(toks[pos][1:], 16)))[0]
         if math.isfinite(x) and abs(x) > _FMAX[node["n"]]:
-            raise NotApplicable()
+            if in_array or not _SPELL["pass_oor"]:
+                raise NotApplicable()
+            _SPELL["oor"] += 1
         return x, pos + 1
     if k == "v":
         return None, pos + 1
@@ -390,13 +399,24 @@ def _serialize(obj):
 def build_object(t, toks, pos=0):
     """Protocol value -> generated object, over-long arrays left to the generated setter.  -> (object, new position)"""
     bad_len = has_bad_length(t["node"], toks[pos:])
+    _SPELL["pass_oor"], _SPELL["oor"] = True, 0
     try:
-        # no length check of our own here: an over-long array must be refused by the generated setter (ValueError)
-        return build_unchecked(t["node"], toks, pos)
-    except ValueError:
+        # no length / range check of our own here: an over-long array must be refused by the generated setter (ValueError);
+        # a scalar outside the DSDL range MAY be refused by it (-> n/a: not expressible on this target) — but if the setter
+        # accepts it, the object is serialized and the bytes must be the cast-adjusted ones of the specification
+        r = build_unchecked(t["node"], toks, pos)
+        if _SPELL["oor"]:
+            STATS["out-of-range-scalars:accepted-by-setter"] += 1
+        return r
+    except (ValueError, OverflowError):
         if bad_len:
             raise BadLength()
+        if _SPELL["oor"]:
+            STATS["out-of-range-scalars:refused-by-setter"] += 1
+            raise NotApplicable()
         raise
+    finally:
+        _SPELL["pass_oor"] = False
 
 
 def do_ser(t, text):
